@@ -587,6 +587,7 @@ func (e *Env) trQuant(x *EQuant) (Term, Ty) {
 	sub := e
 	var decls []string
 	var autoPats []string
+	var ranges []string
 	for _, v := range x.Vars {
 		ty := g.W.resolveType(e.pkg, v.Type, g)
 		s := g.tySort(ty)
@@ -632,7 +633,26 @@ func (e *Env) trQuant(x *EQuant) (Term, Ty) {
 			}
 		}
 	}
+	for _, v := range x.Vars {
+		// a bound variable of a Go integer type ranges over that type only
+		if b := sub.vars[v.Name]; b.Ty.G != nil && isIntType(b.Ty.G) {
+			if inv := g.typeInv(b.T.S, b.Ty.G); inv != "true" && inv != "" {
+				ranges = append(ranges, inv)
+			}
+		}
+	}
 	body := sub.trBool(x.Body)
+	if len(ranges) > 0 {
+		rg := ranges[0]
+		if len(ranges) > 1 {
+			rg = "(and " + strings.Join(ranges, " ") + ")"
+		}
+		if x.Forall {
+			body = "(=> " + rg + " " + body + ")"
+		} else {
+			body = "(and " + rg + " " + body + ")"
+		}
+	}
 	pat := ""
 	for _, ts := range x.Trig {
 		if len(autoPats) > 0 {
